@@ -12,6 +12,7 @@ import (
 	"strings"
 	"time"
 
+	"github.com/modernizing/coca/pkg/application/analysis/javaapp"
 	"github.com/modernizing/coca/pkg/application/concept"
 	"github.com/modernizing/coca/pkg/application/count"
 	"github.com/modernizing/coca/pkg/application/evaluate"
@@ -22,6 +23,9 @@ import (
 func init() { register("stats", statsFamily) }
 
 func statsFamily(c map[string]json.RawMessage) (interface{}, error) {
+	if str(c, "op") == "evaluatesrc" {
+		return evaluateSrc(c)
+	}
 	var clzs []core_domain.CodeDataStruct
 	if err := json.Unmarshal(c["clzs"], &clzs); err != nil {
 		return nil, err
@@ -192,6 +196,58 @@ func evaluateCli(c map[string]json.RawMessage) (interface{}, error) {
 	if err := json.Unmarshal(b, &r); err != nil {
 		return map[string]interface{}{"reportUnreadable": fmt.Sprintf("coca_reporter/evaluate.json (%d bytes): %v", len(b), err), "stdout": stdout}, nil
 	}
+	items := append([]string{}, r.Nullable.Items...)
+	sort.Strings(items)
+	return map[string]interface{}{"UtilsCount": r.Summary.UtilsCount, "ClassCount": r.Summary.ClassCount,
+		"MethodCount": r.Summary.MethodCount, "StaticMethodCount": r.Summary.StaticMethodCount, "Nullable": items}, nil
+}
+
+// evaluateSrc: the evaluation of a SOURCE tree ("files"), as a user obtains it: the identifier pass and the full pass over the
+// tree, then the analyser (in process), or `coca analysis -p dir` followed by `coca evaluate -d coca_reporter/deps.json` in fresh
+// processes ("cli"). The "clzs" / "identifiers" of the case are what the source says (the generator's ground truth): they
+// are for the model and the oracle, the real code never sees them.
+func evaluateSrc(c map[string]json.RawMessage) (interface{}, error) {
+	dir, err := writeTree(c, "files")
+	if dir != "" {
+		defer os.RemoveAll(dir)
+	}
+	if err != nil {
+		return nil, err
+	}
+	if boolean(c, "cli") {
+		work, err := newWork()
+		if err != nil {
+			return nil, err
+		}
+		defer os.RemoveAll(work)
+		if _, err := cocaCli(work, "analysis", "-p", dir); err != nil {
+			return nil, err
+		}
+		stdout, err := cocaCli(work, "evaluate", "-d", filepath.Join(work, "coca_reporter", "deps.json"))
+		if err != nil {
+			return nil, err
+		}
+		b, err := getReport(work, "evaluate.json")
+		if err != nil {
+			return nil, err
+		}
+		var r struct {
+			Nullable struct{ Items []string }
+			Summary  struct{ UtilsCount, ClassCount, MethodCount, StaticMethodCount int }
+		}
+		if err := json.Unmarshal(b, &r); err != nil {
+			return map[string]interface{}{"reportUnreadable": fmt.Sprintf("coca_reporter/evaluate.json (%d bytes): %v", len(b), err), "stdout": stdout}, nil
+		}
+		items := append([]string{}, r.Nullable.Items...)
+		sort.Strings(items)
+		return map[string]interface{}{"UtilsCount": r.Summary.UtilsCount, "ClassCount": r.Summary.ClassCount,
+			"MethodCount": r.Summary.MethodCount, "StaticMethodCount": r.Summary.StaticMethodCount, "Nullable": items}, nil
+	}
+	identApp := javaapp.NewJavaIdentifierApp()
+	identifiers := identApp.AnalysisPath(dir)
+	fullApp := javaapp.NewJavaFullApp()
+	nodes := fullApp.AnalysisPath(dir, identifiers)
+	r := evaluate.NewEvaluateAnalyser().Analysis(nodes, identifiers)
 	items := append([]string{}, r.Nullable.Items...)
 	sort.Strings(items)
 	return map[string]interface{}{"UtilsCount": r.Summary.UtilsCount, "ClassCount": r.Summary.ClassCount,
